@@ -376,6 +376,8 @@ class Translator:
             out.append(f"(* {q}  <-  {f}:{ln} *)")
             out.append(self.units[n])
         out.append("End Gen.")
+        # every generated definition can be unfolded by name-independent proof scripts: `autounfold with gensrc`
+        out.append("#[global] Hint Unfold " + " ".join(self.order) + " : gensrc.")
         return "\n".join(out) + "\n"
 
     def _has_elt(self, c):
@@ -976,10 +978,11 @@ class Frame:
             return self.binop(n)
         if isinstance(n, ast.BoolOp):
             vs = []
+            ndo = lambda: sum(1 for l in self.cur.lines if l.startswith("do ")) if self.cur is not None else 0
             for j, x in enumerate(n.values):
-                n0 = len(self.cur.lines) if self.cur is not None else 0
+                n0 = ndo()
                 vs.append(self.truth(self.ev(x)))
-                if j > 0 and self.cur is not None and len(self.cur.lines) != n0:
+                if j > 0 and ndo() != n0:
                     raise Unsupported("a short-circuited operand can raise")
             op = "andb" if isinstance(n.op, ast.And) else "orb"
             e = vs[0].e
@@ -1145,9 +1148,10 @@ class Frame:
         sb = self.static_bool(c)
         if sb is not None:
             return self.ev(n.body if sb else n.orelse)
-        n0 = len(self.cur.lines) if self.cur is not None else 0
+        ndo = lambda: sum(1 for l in self.cur.lines if l.startswith("do ")) if self.cur is not None else 0
+        n0 = ndo()
         a, b = self.ev(n.body), self.ev(n.orelse)
-        if self.cur is not None and len(self.cur.lines) != n0:
+        if ndo() != n0:
             raise Unsupported("a branch of a conditional expression can raise")
         if isinstance(a, O) or isinstance(b, O):
             raise Unsupported("conditional expression on objects")
@@ -1200,8 +1204,25 @@ class Frame:
         return None
 
     def is_pure_inline(self, fn):
+        """a single `return expr`, possibly preceded by assignments of pure expressions to local names"""
         body = self.tr._body(fn)
-        return len(body) == 1 and isinstance(body[0], ast.Return) and body[0].value is not None and not self._contains_effect(body[0].value)
+        if not body or not isinstance(body[-1], ast.Return) or body[-1].value is None or self._contains_effect(body[-1].value):
+            return False
+        for st in body[:-1]:
+            if not (isinstance(st, ast.Assign) and len(st.targets) == 1 and isinstance(st.targets[0], ast.Name)) or self._contains_effect(st.value):
+                return False
+        return True
+
+    def eval_pure_body(self, sub, fn):
+        body = self.tr._body(fn)
+        for st in body[:-1]:
+            v = sub.ev(st.value)
+            if isinstance(v, V) and not self._atomic(v.e) and self.cur is not None:
+                nm = self.tr.name(st.targets[0].id + "_")
+                self.cur.let(nm, v.e)
+                v = V(nm, v.ty)
+            sub.env[st.targets[0].id] = v
+        return sub.ev(body[-1].value)
 
     def _contains_effect(self, expr):
         for sub in ast.walk(expr):
@@ -1285,7 +1306,7 @@ class Frame:
         for nm in names:
             if nm in vals:
                 sub.env[nm] = self.ev(vals[nm])
-        return sub.ev(self.tr._body(fn)[0].value)
+        return self.eval_pure_body(sub, fn)
 
     def builtin(self, name, n):
         if name == "isinstance":
@@ -1308,7 +1329,7 @@ class Frame:
                 if d and self.is_pure_inline(d[1]):
                     sub = Frame(self.tr, x, d[0], d[1], x.cls, "__len__", self.discover)
                     sub.cur = self.cur
-                    return sub.ev(self.tr._body(d[1])[0].value)
+                    return self.eval_pure_body(sub, d[1])
                 raise Unsupported("len of object")
             if isinstance(x.ty, tuple) and x.ty[0] == "list":
                 return V(f"(Z.of_nat (length {x.e}))", INT)
@@ -1339,6 +1360,8 @@ class Frame:
             return V("(@None (num A))", NUMX)
         if name == "float" and len(args) == 1 and args[0].ty in (INT, NUM):
             return coerce(args[0], NUM)
+        if name == "bool" and len(args) == 1 and args[0].ty == BOOL:
+            return args[0]
         if name == "np.random.seed":
             a = args[0] if args else self.ev(n.keywords[0].value)
             if a.ty == opt(INT):
